@@ -7,7 +7,8 @@ CONSTANTS
   FixNonce = FALSE
   FixUnpad = FALSE
   FixProto = FALSE
+  FixShardLens = FALSE
 INIT Init
 NEXT Next
-INVARIANTS Reconstructs CorruptHarmless NeverFails BadPaddingRejected HonestAccepted CorruptRejected DuplicateRejected Pipeline PaddingOK ThresholdsOK
+INVARIANTS Reconstructs CorruptHarmless NeverFails MalformedWireRejected BadPaddingRejected HonestAccepted CorruptRejected DuplicateRejected Pipeline PaddingOK ThresholdsOK
 CHECK_DEADLOCK FALSE
